@@ -51,22 +51,22 @@ type c13Site struct {
 
 // classes of Bad-node sites
 const (
-	badNone      = 0 // no error witness found
-	badBefore    = 1 // an unconditional p.error/p.errorExpected call dominates the site
-	badGuardNil  = 2 // site guarded by `<v> == nil` where <v> := p.<f>(...) and f reports an error on every nil return
-	badFlag      = 3 // site sets `ok = false`; `if !ok { ...p.error... }` follows the loop
-	badSubErrors = 4 // site guarded by `err != nil` of ParseExprEx and the errors are appended to p.errors
-	badCondNil   = 5 // `if cond == nil { cond = Bad }` in a reviewed header function (body hash pinned)
+	c13_badNone      = 0 // no error witness found
+	c13_badBefore    = 1 // an unconditional p.error/p.errorExpected call dominates the site
+	c13_badGuardNil  = 2 // site guarded by `<v> == nil` where <v> := p.<f>(...) and f reports an error on every nil return
+	c13_badFlag      = 3 // site sets `ok = false`; `if !ok { ...p.error... }` follows the loop
+	c13_badSubErrors = 4 // site guarded by `err != nil` of ParseExprEx and the errors are appended to p.errors
+	c13_badCondNil   = 5 // `if cond == nil { cond = Bad }` in a reviewed header function (body hash pinned)
 )
 
 // classes of panic sites
 const (
-	panicUnreviewed = 0
-	panicBailout    = 1 // panic(bailout{}) in parser.error
-	panicReraise    = 2 // panic(e) inside the recover closure of a wrapper, guarded by the bailout type test
-	panicAssert     = 3 // panic("go/parser internal error: " + msg) in assert
-	panicInternal   = 4 // "internal error" / "unexpected state" string literal
-	panicNilFset    = 5 // parseFile: fset == nil precondition
+	c13_panicUnreviewed = 0
+	c13_panicBailout    = 1 // panic(bailout{}) in parser.error
+	c13_panicReraise    = 2 // panic(e) inside the recover closure of a wrapper, guarded by the bailout type test
+	c13_panicAssert     = 3 // panic("go/parser internal error: " + msg) in assert
+	c13_panicInternal   = 4 // "internal error" / "unexpected state" string literal
+	c13_panicNilFset    = 5 // parseFile: fset == nil precondition
 )
 
 func genC13Parser(e *Env) error {
@@ -138,7 +138,7 @@ func genC13Parser(e *Env) error {
 			return fail("stmt 2")
 		}
 		// the comparison  n <op> lim  as a Coq function on Z
-		op, err := cmpOp(be.Op)
+		op, err := c13CmpOp(be.Op)
 		if err != nil {
 			return fail(err.Error())
 		}
@@ -187,7 +187,7 @@ func genC13Parser(e *Env) error {
 			return fail("syncCnt limit")
 		}
 		lim, _ := strconv.ParseInt(lit.Value, 0, 64)
-		op, err := cmpOp(lt.Op)
+		op, err := c13CmpOp(lt.Op)
 		if err != nil {
 			return fail(err.Error())
 		}
@@ -199,7 +199,7 @@ func genC13Parser(e *Env) error {
 		if !ok || src(gt.X) != "p.pos" || src(gt.Y) != "p.syncPos" {
 			return fail("progress condition")
 		}
-		op2, err := cmpOp(gt.Op)
+		op2, err := c13CmpOp(gt.Op)
 		if err != nil {
 			return fail(err.Error())
 		}
@@ -442,7 +442,7 @@ func genC13Parser(e *Env) error {
 	return e.WriteV("C13Parser", out.String())
 }
 
-func cmpOp(op token.Token) (string, error) {
+func c13CmpOp(op token.Token) (string, error) {
 	switch op {
 	case token.GTR:
 		return "Z.gtb", nil
@@ -476,7 +476,7 @@ var c13Pinned = map[string]bool{
 // helpers that report an error on every path returning nil (audited below by c13NilHelperOK)
 var c13NilHelpers = map[string]bool{"toIdent": true, "parseCallExpr": true}
 
-func isErrCall(s ast.Stmt, src func(ast.Node) string) bool {
+func c13IsErrCall(s ast.Stmt, src func(ast.Node) string) bool {
 	es, ok := s.(*ast.ExprStmt)
 	if !ok {
 		return false
@@ -504,7 +504,7 @@ func c13AuditFunc(p *Pkg, fd *ast.FuncDecl, fname string, src func(ast.Node) str
 	dominated := func() bool {
 		for _, fr := range stack {
 			for k := 0; k < fr.idx; k++ {
-				if isErrCall(fr.list[k], src) {
+				if c13IsErrCall(fr.list[k], src) {
 					return true
 				}
 			}
@@ -517,7 +517,7 @@ func c13AuditFunc(p *Pkg, fd *ast.FuncDecl, fname string, src func(ast.Node) str
 
 	classifyBad := func(cl *ast.CompositeLit) (int, string) {
 		if dominated() {
-			return badBefore, "error call dominates"
+			return c13_badBefore, "error call dominates"
 		}
 		// enclosing  if <v> == nil  where v := p.<helper>(...) earlier in the function
 		for i := len(conds) - 1; i >= 0; i-- {
@@ -539,11 +539,11 @@ func c13AuditFunc(p *Pkg, fd *ast.FuncDecl, fname string, src func(ast.Node) str
 					return true
 				})
 				if helper != "" {
-					return badGuardNil, "guarded by " + c + " of p." + helper
+					return c13_badGuardNil, "guarded by " + c + " of p." + helper
 				}
 				if v == "cond" {
 					if _, ok := c13Headers[fname]; ok && len(stack) == 2 {
-						return badCondNil, "cond == nil in reviewed header"
+						return c13_badCondNil, "cond == nil in reviewed header"
 					}
 				}
 			}
@@ -552,7 +552,7 @@ func c13AuditFunc(p *Pkg, fd *ast.FuncDecl, fname string, src func(ast.Node) str
 				fr := stack[len(stack)-1]
 				for k := 0; k < fr.idx; k++ {
 					if src(fr.list[k]) == "p.errors = append(p.errors, err...)" {
-						return badSubErrors, "non-empty ParseExprEx error list appended"
+						return c13_badSubErrors, "non-empty ParseExprEx error list appended"
 					}
 				}
 			}
@@ -576,7 +576,7 @@ func c13AuditFunc(p *Pkg, fd *ast.FuncDecl, fname string, src func(ast.Node) str
 						switch b := s.(type) {
 						case *ast.BlockStmt:
 							for _, x := range b.List {
-								if isErrCall(x, src) {
+								if c13IsErrCall(x, src) {
 									return true
 								}
 								if i2, ok := x.(*ast.IfStmt); ok && i2.Else != nil && chk(i2.Body) && chk(i2.Else) {
@@ -594,10 +594,10 @@ func c13AuditFunc(p *Pkg, fd *ast.FuncDecl, fname string, src func(ast.Node) str
 				return true
 			})
 			if found {
-				return badFlag, "ok = false; if !ok { p.error } after the loop"
+				return c13_badFlag, "ok = false; if !ok { p.error } after the loop"
 			}
 		}
-		return badNone, "NO ERROR WITNESS"
+		return c13_badNone, "NO ERROR WITNESS"
 	}
 
 	var walkStmts func(list []ast.Stmt, owner ast.Node)
@@ -626,7 +626,7 @@ func c13AuditFunc(p *Pkg, fd *ast.FuncDecl, fname string, src func(ast.Node) str
 			case *ast.CallExpr:
 				f := src(v.Fun)
 				if f == "panic" || strings.HasPrefix(f, "log.Panic") || strings.HasPrefix(f, "log.Fatal") || f == "os.Exit" {
-					c, why := panicUnreviewed, "UNREVIEWED "+src(v)
+					c, why := c13_panicUnreviewed, "UNREVIEWED "+src(v)
 					arg := ""
 					if len(v.Args) > 0 {
 						arg = src(v.Args[0])
@@ -634,18 +634,18 @@ func c13AuditFunc(p *Pkg, fd *ast.FuncDecl, fname string, src func(ast.Node) str
 					switch {
 					case f != "panic":
 					case arg == "bailout{}" && fname == "parser.error":
-						c, why = panicBailout, "bailout"
+						c, why = c13_panicBailout, "bailout"
 					case arg == "e" && inRecoverIf > 0:
-						c, why = panicReraise, "re-raise of non-bailout panic"
+						c, why = c13_panicReraise, "re-raise of non-bailout panic"
 					case fname == "assert" && arg == `"go/parser internal error: " + msg`:
-						c, why = panicAssert, "assert"
+						c, why = c13_panicAssert, "assert"
 					case strings.HasPrefix(arg, `"`) && (strings.Contains(arg, "internal error") || strings.Contains(arg, "unexpected state")):
-						c, why = panicInternal, arg
+						c, why = c13_panicInternal, arg
 					case fname == "parseFile" && strings.Contains(arg, "no token.FileSet provided"):
 						// must be guarded by fset == nil
 						for _, cnd := range conds {
 							if cnd == "fset == nil" {
-								c, why = panicNilFset, "fset == nil precondition"
+								c, why = c13_panicNilFset, "fset == nil precondition"
 							}
 						}
 					}
